@@ -217,8 +217,13 @@ func (c convCase) Line() string {
 	words := map[string]bool{}
 	if utf8.ValidString(s) {
 		rs := []rune(s)
+		if len(rs) > 96 {
+			return "" // longer than any generated input: the word table would not be complete, so the model is not asked
+		}
 		for i := 0; i < len(rs); i++ {
-			for j := i + 1; j <= len(rs) && j-i <= 12; j++ {
+			// every substring: any of them can come out of the splitter as one word (a cap here made the model
+			// answer missing-word for a run of thirteen capitals — a false alarm of the harness, not of the code)
+			for j := i + 1; j <= len(rs) && j-i <= 96; j++ {
 				words[string(rs[i:j])] = true
 			}
 		}
